@@ -58,7 +58,7 @@ func (r *Runtime) functionproto_toString(call FunctionCall) Value {
 	case funcObjectImpl:
 		return f.source()
 	case *proxyObject:
-		if _, ok := f.target.self.(funcObjectImpl); ok {
+		if f.call != nil {
 			return asciiString("function () { [native code] }")
 		}
 	}
